@@ -25,16 +25,19 @@ Qed.
 Lemma eqb_false_neq : forall a b : bool, Bool.eqb a b = false -> a <> b.
 Proof. intros [] [] H; cbn in H; congruence. Qed.
 
+Lemma zero_or_one : forall s, (s =? 0) || (s =? 1) = true <-> (s = 0 \/ s = 1).
+Proof. intros s. rewrite orb_true_iff, !Z.eqb_eq. reflexivity. Qed.
+
 Theorem bool_verdict_zero_lemma : forall o A B R p,
     bool_verdict o A B R p = 0 <->
     covers R p = bop o (covers A p) (covers B p) /\ (wn_sum R p = 0 \/ wn_sum R p = 1).
 Proof.
-  intros o A B R p. unfold bool_verdict.
+  intros o A B R p. unfold bool_verdict. rewrite <- zero_or_one.
   destruct (Bool.eqb (covers R p) (bop o (covers A p) (covers B p))) eqn:E; cbn [negb].
   - apply Bool.eqb_prop in E.
-    destruct (wn_sum R p =? 0) eqn:E0; [apply Z.eqb_eq in E0 | apply Z.eqb_neq in E0];
-      destruct (wn_sum R p =? 1) eqn:E1; [apply Z.eqb_eq in E1 | apply Z.eqb_neq in E1 | apply Z.eqb_eq in E1 | apply Z.eqb_neq in E1];
-      cbn [orb]; split; intros H; try lia; try (split; [exact E | lia]).
+    destruct ((wn_sum R p =? 0) || (wn_sum R p =? 1)); split; intros H;
+      try discriminate; try reflexivity; try (split; [exact E | reflexivity]).
+    destruct H as [_ H]. discriminate.
   - apply eqb_false_neq in E. split; [discriminate | intros [H _]; contradiction].
 Qed.
 
@@ -52,6 +55,7 @@ Proof.
     + split; intros H; [discriminate | contradiction].
 Qed.
 
+
 (* growth: verdict 0 means both clauses of the property hold at the sample and outputs do not overlap *)
 Theorem grow_verdict_zero_lemma : forall G R rin rout p,
     grow_verdict G R rin rout p = 0 <->
@@ -60,15 +64,16 @@ Theorem grow_verdict_zero_lemma : forall G R rin rout p,
     /\ (wn_sum R p = 0 \/ wn_sum R p = 1).
 Proof.
   intros G R rin rout p. unfold grow_verdict.
-  destruct (covers G p) eqn:EG; destruct (group_near p G rin) eqn:Ei; destruct (group_near p G rout) eqn:Eo;
-    destruct (covers R p) eqn:ER; cbn [orb andb negb];
-    destruct (wn_sum R p =? 0) eqn:E0; try (apply Z.eqb_eq in E0); try (apply Z.eqb_neq in E0);
-    destruct (wn_sum R p =? 1) eqn:E1; try (apply Z.eqb_eq in E1); try (apply Z.eqb_neq in E1);
-    cbn [orb]; split; intros H; try discriminate; try reflexivity;
-    try (repeat split; intros; try tauto; try discriminate; try lia; fail);
-    try (destruct H as [H1 [H2 H3]]; try (specialize (H1 (or_introl eq_refl)); discriminate);
+  rewrite <- zero_or_one.
+  destruct ((wn_sum R p =? 0) || (wn_sum R p =? 1));
+  destruct (covers G p); destruct (group_near p G rin); destruct (group_near p G rout);
+    destruct (covers R p); cbn [orb andb negb]; split; intros H;
+    try discriminate; try reflexivity;
+    try (repeat split; intros; try tauto; try discriminate; intuition discriminate);
+    try (destruct H as [H1 [H2 H3]]; try discriminate;
+         try (specialize (H1 (or_introl eq_refl)); discriminate);
          try (specialize (H1 (or_intror eq_refl)); discriminate);
-         try (specialize (H2 (conj eq_refl eq_refl)); discriminate); lia).
+         try (specialize (H2 (conj eq_refl eq_refl)); discriminate)).
 Qed.
 
 Print Assumptions sample_ok_lemma.
